@@ -244,9 +244,25 @@ func drvLock(args []string) error {
 			done := make(chan error, 1)
 			go func() { done <- st.Close() }()
 			early, reached, second, same := false, false, false, true
+			c2ok, c2back, c2lock, c2open := false, true, true, false
 			select {
 			case <-parked:
 				reached = true
+				// a second Close while the first is inside its final flush: it reports an error and changes nothing - the LOCK stays,
+				// the directory stays owned
+				c2 := make(chan error, 1)
+				go func() { c2 <- st.Close() }()
+				select {
+				case err2 := <-c2:
+					c2ok = err2 == nil
+				case <-time.After(3 * time.Second):
+					c2back = false
+				}
+				c2lock = lockPresent(dir)
+				if st3, err3 := comet.OpenPersistentHybridIndex(lockCfg(dir)); err3 == nil {
+					c2open = true
+					st3.Close()
+				}
 				select {
 				case <-done: // Close returned although its flusher is still inside the final flush
 					early = true
@@ -266,7 +282,8 @@ func drvLock(args []string) error {
 			case <-time.After(20 * time.Second):
 			}
 			comet.VerifSetHandler(nil)
-			t.ev("slowclose", E{"reached": reached, "early": early, "secondOpen": second, "dirSame": same})
+			t.ev("slowclose", E{"reached": reached, "early": early, "secondOpen": second, "dirSame": same,
+				"c2ok": c2ok, "c2back": c2back, "c2lock": c2lock, "c2open": c2open})
 		}
 	}
 	// concurrent rounds
